@@ -10,7 +10,7 @@
      castfree e         no explicit width-changing BitsN(.) cast (the property's exemption)
      check (Sh)         shift amounts have the width of the shifted Bits value (the property's other exemption)
      env_ok E st        the runtime temporaries / loop variables have the types the checker recorded *)
-From PV Require Import Base.Prelude Bits.BitsSpec RTL.Syntax RTL.Eval RTL.Typing RTL.TypingSound RTL.TypingMono.
+From PV Require Import Base.Prelude Bits.BitsSpec RTL.Syntax RTL.Eval RTL.Typing RTL.TypingSound RTL.TypingMono RTL.BlockSound.
 Open Scope Z_scope.
 
 (* "an integer literal's inferred width is the least number of bits that holds it" *)
@@ -51,11 +51,32 @@ Theorem C10_tc_sound_assign E st lbl l e blocking E' ns :
 Proof. exact (assign_sound E st lbl l e blocking E' ns). Qed.
 Print Assumptions C10_tc_sound_assign.
 
-(* the same statement for whole blocks (if / for included) — stated, NOT proved: only single assignments
-   (above, under any typing environment and state reachable inside if / for bodies) are covered *)
-Definition C10_block_soundness_partial : Prop :=
-  forall G b inputs E' ns, tc_block strict (init_tenv G) b = Some (E', ns) ->
-    exec_block G b (init_state inputs) <> Err EValue.
+(* ... and for WHOLE BLOCKS, if / else and constant-bounded for loops arbitrarily nested, temporaries included: a block
+   that the checker accepts and that contains no cast never raises a width error, on any inputs, and the temporaries /
+   loop variables it leaves behind have the types the checker recorded.  (The loop body is typed once and executed for
+   every value of the range; both branches of an if are typed, one is executed; a temporary assigned in one branch only
+   and read after the other one was taken is an UnboundLocalError, not a width error.) *)
+Theorem C10_block_sound G b inputs E' ns :
+  tc_block strict (init_tenv G) b = Some (E', ns) -> castfree_block b = true ->
+  match exec_block G b (init_state inputs) with
+  | Ok st' => env_ok E' st'
+  | Err EValue => False
+  | Err _ => True
+  end.
+Proof. exact (block_sound G b inputs E' ns). Qed.
+Print Assumptions C10_block_sound.
+
+(* the same for one statement in the middle of a block: any typing environment E, any final environment B of the
+   enclosing block, any state in which the temporaries have the types of B and the loop variables those of E *)
+Theorem C10_stmt_sound s E E' ns B st :
+  tcs strict E s = Some (E', ns) -> castfree_stmt s = true -> tenv_wf E -> tmps_in E' B -> inv E B st ->
+  match exec (tsig E) s st with
+  | Ok st' => inv E' B st'
+  | Err EValue => False
+  | Err _ => True
+  end.
+Proof. intros H1 H2 H3. exact (proj2 (stmt_sound_all s E E' ns H1 H2 H3) B st). Qed.
+Print Assumptions C10_stmt_sound.
 
 (* "a block whose simulation raises a width mismatch between explicitly sized operands of an arithmetic, bitwise,
    comparison, conditional or assignment operation is rejected" — static form, for EVERY setting of the extra
@@ -143,6 +164,23 @@ Proof.
   split; [|vm_compute; reflexivity].
   split; intros; discriminate.
 Qed.
+(* a block with a temporary, and an if (with another temporary) inside a for:
+     t0 = s.a
+     for i in range(4):
+       if s.a[i]:  t1 = t0 + 1 ; s.o[i:i+2] @= t1[0:2]
+       else:       s.o[i] @= 0                                                        *)
+Definition demo_block : list stmt :=
+  [ SAssign 0 (LTmp 0) (ESig 0 []) true;
+    SFor 0 0 4 1
+      [ SIf 1 (EIdx (ESig 0 []) (ELoop 0))
+          [ SAssign 2 (LTmp 1) (EBin Add (ETmp 0) (ELit 1)) true;
+            SAssign 3 (LSlice 1 [] (ELoop 0) (EBin Add (ELoop 0) (ELit 2))) (ESlice (ETmp 1) (ELit 0) (ELit 2)) true ]
+          [ SAssign 4 (LIndex 1 [] (ELoop 0)) (ELit 0) true ] ] ].
+Example C10_nonvacuous_block :
+  (exists E' ns, tc_block strict (init_tenv G8) demo_block = Some (E', ns)) /\ castfree_block demo_block = true /\
+  match exec_block G8 demo_block (init_state [6; 0; 0; 0]) with Ok st' => final_sig st' 1%nat = 6 | Err _ => False end.
+Proof. split; [eexists; eexists; vm_compute; reflexivity|]. split; vm_compute; reflexivity. Qed.
+
 Example C10_nonvacuous_assign :
   exists E' ns, tc_assign strict (init_tenv G8) (LSlice 1 [] (ELit 0) (ELit 3)) (EBin Xor (ESig 3 []) (ELit 5)) = Some (E', ns).
 Proof. eexists; eexists. vm_compute. reflexivity. Qed.
